@@ -1,5 +1,5 @@
 """C07: affine_joint_transformation is the chain rule p(x,y) = p(y|x) p(x)."""
-from .condprops import make_case
+from .condprops import make_case, CTOR_VARIANTS
 
 PROP = "C07"
 KINDS = ["full", "diag", "identity", "identitydiag", "nncontrol"]
@@ -34,8 +34,8 @@ def cases(tier, seed=0):
     # constructor / history variants: built from the precision only; update_Sigma before the operation
     for kind in KINDS:
         dd = (2, 2) if kind.startswith("identity") else (2, 1)
-        for var in (("viaL",), ("upd",)):
-            if kind == "nncontrol" and var == ("viaL",):
+        for var in CTOR_VARIANTS:
+            if kind == "nncontrol" and var in (("viaL",), ("viaSL",)):
                 continue
             sm = var + ((("Sx",) if dd == (2, 2) else ()))
             out.append(make_case(PROP, "joint", kind, dd[0], dd[1], 1, 1, semi=sm, timeout=600))
